@@ -144,7 +144,7 @@ def pushed_code_points(eng, st, a, pr):
     if entry_known != '':
         return False, 'the accumulated text is not empty before the loop (%r)' % (entry_known,)
     body = eng.prog.bodies.get(func)
-    if body is None or not g.loop_exits_only_at_head(body, head):
+    if body is None or not g.loop_exits_only_at_head(body, head, eng, func):
         return False, 'the loop that builds the 8-bit text can be left early'
     desc = g.loop_desc_in(st.event_list(), func, head)
     if desc is None or desc[0] != 'coll' or any(o not in ('cloned',) for o in desc[4]):
